@@ -54,6 +54,26 @@ CLAIMS = {
   note=TB + "Known findings (ill-typed literals that do not compile: nullable, format, object defaults; null at an enum-typed defaulted property is rejected). Empty values are not observable through json.Marshal (omitempty) and are skipped.",
   technique="Lean 4 lemmas about the emitted default statement + sampled program-level correspondence",
   ref="§3 C09"),
+ "C19": dict(
+  text="Theorems (method model, any declaration, any wire, any input, any prior destination): the receiver is written only by the final store, so an error leaves the destination exactly as it was and a success does not depend on the prior destination (error_keeps_destination, method_all_or_nothing, result_independent_of_destination); nil guards: nil pointers are never dereferenced by numeric/string validators, nil slices never indexed, a nil raw map never fails a presence check (numeric/string/array/null_nil_guard, required_nil_raw); scalars are refused by the raw-map decode (scalar_refused_by_raw_decode). Counterexample for the one known panic (KF_addl_null_panics, K13). The single-final-store shape of the emitted text is a regenerated fact (receiverWrites). Tie: every root type x valid/single-fault/wrong-shape/deeply nested/malformed inputs x prior destination, under recover(), destination re-marshalled before and after, on the JSON and YAML methods.",
+  note=TB + "Partial: panics and non-termination live in the Go runtime; the model has an explicit panic outcome only where one is known (K13) and they are hunted by the correspondence under recover(). The all-or-nothing oracle applies to types that have a generated method (a root type without one is filled field by field by encoding/json itself).",
+  technique="Lean 4 lemmas about the method model + regenerated receiver-write facts + sampled execution of the real methods with prior destinations under recover()",
+  ref="§3 C19"),
+ "C17": dict(
+  text="Theorems: the validators emitted after the shadow decode mean the same in both methods for every input (runAfter_wire_independent), the presence checks likewise (runBefore_wire_independent); the decode primitives agree on values of the type their position expects (prim_decode_agree); hence for a plain declaration without anyOf the whole method gives the same verdict and value on both wires whenever the shadow decode does (method_same_statements). Counterexamples for the known differences (KF_yaml_int_in_mixed_enum, KF_yaml_truncates_fraction). Tie: programs generated with --extra-imports; valid and single-fault documents (required / bound / length / pattern / string enum) through the real UnmarshalJSON and UnmarshalYAML: same verdict, same re-marshalled value; model = implementation on both wires.",
+  note=TB + "Partial: the induction that lifts primitive agreement to whole documents is carried by the correspondence. Known findings K9 (mixed-enum integers, format date/time under YAML). yaml.v3's leniencies outside the property's fault list (1.5 into int, numbers into strings, null elements dropped) are modelled (rules Y2-Y5) and kept out of the judged stream.",
+  technique="Lean 4 wire-independence theorems over the method model + sampled dual-path execution of the real code",
+  ref="§3 C17"),
+ "C11": dict(
+  text="Theorems: the emitted anyOf statement passes iff at least one of the n branch types accepts the same bytes, and rejects iff all reject (anyBranch_iff, anyOf_validator_rejects_iff: disjunction, for every n and input); the merge from which the outer type is generated appends the branches' required lists (merge_required), exposes exactly the union of their property keys (mergeEntry_keys, mergeKvs_keys) and takes over a property only one branch declares unchanged (mergeKvs_disjoint_lookup): conjunction for disjoint branches. The full statement is false for overlapping branches (KF_allOf_overlap_first_wins; known findings K8). Tie: allOf/anyOf of 1..4 object branches, inline or $ref, disjoint or with an identically declared shared property, x documents satisfying every subset of branches; verdict = reference; generated type exposes every branch property.",
+  note=TB + "Scope F11: disjoint-or-identical property sets, branch failures that are not type errors. Known findings: first-wins on overlap, union-struct rejection, mergo overwriting a zero bound through a shared pointer, composite definitions reached by $ref do not compile (K21). mergo itself is modelled (the subset of behaviours in Gen.lean), not verified.",
+  technique="Lean 4 theorems about the anyOf statement and the merge model + systematic branch-subset documents through compiled programs",
+  ref="§3 C11"),
+ "C10": dict(
+  text="Theorems: in the reference semantics a reference means its target (spec_ref_is_inline); both pointer prefixes name the same definition for EVERY name and a reference without # is a file reference (extractRef_defs, extractRef_definitions, extractRef_prefix_equiv, extractRef_file, about the parser the driver runs); the loader cache key of fix R4 separates equal relative references from different directories and identifies them within one (cacheKey_*); the rejection theorems of C03/C04 see through references (missing_through_ref, wrong_type_through_ref). Tie: random schemas, sub-schemas factored into $defs / definitions / sibling files (.json, .yaml, extension-less with --resolve-extension, with fragment) in varying directories; inline and reference-form programs compiled and run on the same documents: same verdict and value; each definition yields exactly one type; self- and mutually recursive definitions generate, compile and decode documents nested up to 12 levels plus a deep fault.",
+  note=TB + "Partial: termination of the real generator on arbitrary reference graphs is observed (timeouts), not proved; the model is total on explicit fuel. Scope F10: object and non-nullable typed scalar definitions. Known findings: alias/untyped definitions become interface{} (K18), nullable/array/format definitions lose constraints (K16, K2, named formats). File system and symlinks are not modelled.",
+  technique="Lean 4 theorems on reference parsing, cache keys and the reference semantics + relational inline-vs-reference execution of compiled programs",
+  ref="§3 C10"),
 }
 NA_PENDING = "check not built yet in this session (work in progress; see DESIGN.md §7)"
 ids = [json.loads(l)["id"] for l in open('/verif/properties.jsonl')]
